@@ -20,7 +20,10 @@ mod c15;
 mod c16;
 mod c17;
 mod c18;
+mod c19;
+mod c20;
 mod drive;
+mod exporter;
 mod hostile;
 mod node;
 mod refbmca;
@@ -105,6 +108,8 @@ fn main() {
         "c16" => c16::run(&mut rep, &tier, seed, shard),
         "c17" => c17::run(&mut rep, &tier, seed, shard, replay.as_deref()),
         "c18" => c18::run(&mut rep, &tier, seed, shard, replay.as_deref()),
+        "c19" => c19::run(&mut rep, &tier, seed, shard, replay.as_deref()),
+        "c20" => c20::run(&mut rep, &tier, seed, shard, replay.as_deref()),
         other => {
             eprintln!("unknown check {other}");
             std::process::exit(2);
